@@ -194,7 +194,8 @@ def run(ctx):
         origin, d = trees.mixed_tree(ctx, rng, p_parsed=0.7)
         cases.append((d, rng.random() < 0.5, " "))
     reqs, exp = [], []
-    for d, merge, add_head in cases:
+    hist = trees.SharedObjects(ctx, rng, "OpenRangeTransformer")
+    for ci, (d, merge, add_head) in enumerate(cases):
         o = common.load_tree(d)
         snap = trees.snapshot(o)
         info = {"tree": d, "merge": merge, "add_head": add_head}
@@ -220,6 +221,9 @@ def run(ctx):
             check_merge(ctx, plain, out, dict(info, out=out))
         if not trees.unchanged(o, snap):
             ctx.fail("the input tree was modified", info)
+        if ci % 3 == 0:
+            hist.check((merge, add_head), lambda: I.utils.OpenRangeTransformer(merge_ranges=merge, add_head=add_head),
+                       lambda r, t: common.dump_tree(r(t)), d, info)
         reqs.append({"op": "openrange", "tree": d, "merge": merge, "add_head": add_head})
         exp.append(out)
     if ctx.model_ok:
